@@ -68,7 +68,7 @@ func (tr *fnTrans) instr(b *ssa.BasicBlock, in ssa.Instruction) {
 			if ca, ok := constArray(es.Elem); ok {
 				h0 := tr.curHeap(name)
 				tr.setHeap(name, store(h0, id, ca))
-				tr.atStep(name, h0, tr.curHeap(name), app("=", "(sarr s!s)", id))
+				tr.atStep(name, h0, tr.curHeap(name), app("=", "(sarr s!s)", id), app("=", "(sarr s!s)", id))
 			}
 		} else {
 			name := "H_" + es.Tag()
@@ -86,6 +86,10 @@ func (tr *fnTrans) instr(b *ssa.BasicBlock, in ssa.Instruction) {
 			t := tr.load(l, in.Pos())
 			nt := tr.setVal(in, t.T, t.S)
 			tr.hyp(implies(in0, tr.wf(nt, tr.alloc)))
+			if g, ok := in.X.(*ssa.Global); ok && t.T == SErr && tr.v.nonNilErrGlobal(g) {
+				// package-level error value initialised once from fmt.Errorf / errors.New and never reassigned
+				tr.hyp(not(app("=", nt.S, "Err_nil")))
+			}
 		case token.NOT:
 			tr.setVal(in, SBool, not(tr.val(in.X).S))
 		case token.SUB:
@@ -186,7 +190,7 @@ func (tr *fnTrans) instr(b *ssa.BasicBlock, in ssa.Instruction) {
 		if ca, ok := constArray(s.Elem); ok {
 			h0 := tr.curHeap(name)
 			tr.setHeap(name, store(h0, id, ca))
-			tr.atStep(name, h0, tr.curHeap(name), app("=", "(sarr s!s)", id))
+			tr.atStep(name, h0, tr.curHeap(name), app("=", "(sarr s!s)", id), app("=", "(sarr s!s)", id))
 		}
 		tr.constVal(in, s, mkSlice(id, "0", ln, cp))
 	case *ssa.MakeInterface:
